@@ -112,7 +112,10 @@ def pool : List Rule := [
   ⟨"var-factor", add (mul (var "a") (var "b")) (var "a"), mul (var "a") (add (var "b") (num 1)), [], []⟩,
   -- the bound slot is mentioned explicitly below its binder, in the last e-node of the left pattern
   ⟨"sum-infactor-var", mul (pv "a") (sum "i" (mul (var "i") (pv "b"))), sum "i" (mul (var "i") (mul (pv "a") (pv "b"))), [],
-      [("i", "a")]⟩
+      [("i", "a")]⟩,
+  -- a binder that only the right side writes, around both variables: no e-node of the left pattern has a bound slot, so the
+  -- first fresh slot drawn while matching names a slot of a variable (`a*b = let x = 1 in (x*a)*b`)
+  ⟨"let-intro", mul (pv "a") (pv "b"), let_ "x" (mul (mul (var "x") (pv "a")) (pv "b")) (num 1), [], [("x", "a"), ("x", "b")]⟩
 ]
 
 open P in
